@@ -81,11 +81,23 @@ pub fn cfg_for(scn: Scenario, t: &mut Tape, extra: u64) -> RunCfg {
             c.p_cancel = 0;
             c.p_partial_write = [300, 700, 950][t.choose(3) as usize];
             c.p_frag_read = [300, 700, 950][t.choose(3) as usize];
-            if k == 1 && t.chance(1, 3) {
-                // timed variant: a keep-alive runs and some writes of the fragmented run take
-                // simulated time (the whole-write run takes none)
-                c.keepalive_s = 1 + t.choose(2) as u16;
-                c.p_slow_write = 150;
+            if k == 1 {
+                match t.choose(3) {
+                    1 => {
+                        // timed variant: a keep-alive runs and some writes of the fragmented run
+                        // take simulated time (the whole-write run takes none): compared modulo
+                        // PINGREQs
+                        c.keepalive_s = 1 + t.choose(2) as u16;
+                        c.p_slow_write = 150;
+                    }
+                    2 => {
+                        // keep-alive variant with identical timing in both runs: time passes only
+                        // in script steps (the application is busy elsewhere), fragmentation
+                        // itself takes no time; compared byte for byte, PINGREQs included
+                        c.keepalive_s = 1 + t.choose(2) as u16;
+                    }
+                    _ => {}
+                }
             }
             if k == 2 {
                 // fragments arrive with time gaps while the keep-alive timer runs: the library's
@@ -216,6 +228,8 @@ pub enum SStep {
     /// the broker publishes and the application takes the message with a single poll(): the
     /// acknowledgement it owes is still queued when the next step starts
     BrokerPubTake,
+    /// the application does something else for this many microseconds (only with a keep-alive)
+    Sleep(u64),
     Poll,
     Reconnect,
     Disconnect,
@@ -239,6 +253,9 @@ fn gen_script(w: &mut World, with_disconnect: bool) -> Vec<SStep> {
             _ => SStep::BrokerPubTake,
         };
         v.push(s);
+        if w.cfg.keepalive_s > 0 && w.tape.chance(1, 3) {
+            v.push(SStep::Sleep([300 * clock::US_PER_MS, 600 * clock::US_PER_MS, 1100 * clock::US_PER_MS, 2500 * clock::US_PER_MS][w.tape.choose(4) as usize]));
+        }
     }
     if with_disconnect && w.tape.chance(1, 3) {
         v.push(SStep::Disconnect);
@@ -370,6 +387,11 @@ fn exec_script(session: &mut minimq::Session<'_>, script: &[SStep]) {
                         continue; // no drain: the next step meets the queued acknowledgement
                     }
                 }
+                SStep::Sleep(d) => with(|w| {
+                    w.log(|| format!("app: does something else for {d} us"));
+                    clock::advance_to(clock::now() + *d);
+                    w.run_due_events();
+                }),
                 SStep::Poll => {}
                 SStep::Reconnect => reconnect = true,
                 SStep::Disconnect => {
@@ -664,7 +686,10 @@ fn frag_twin() {
     if corrupted {
         return;
     }
-    if cfg.keepalive_s == 0 {
+    if cfg.keepalive_s == 0 || cfg.p_slow_write == 0 {
+        if cfg.keepalive_s > 0 {
+            with(|w| w.probe("twin_fragmented_with_keepalive_same_timing"));
+        }
         compare_frag(&base, &twin);
         return;
     }
